@@ -572,7 +572,13 @@ func (tl TemporalLiteral) String() string {
 	}
 	sb.WriteString(tl.Literal.String())
 	if tl.Interval != nil {
-		sb.WriteString(tl.Interval.String())
+		if tl.Interval.IsEternal() {
+			// Interval.String prints nothing for the eternal interval, but p(X)@[_, _] asks for
+			// facts that hold forever while p(X) asks for facts that hold at evaluation time.
+			sb.WriteString("@[_, _]")
+		} else {
+			sb.WriteString(tl.Interval.String())
+		}
 	}
 	return sb.String()
 }
